@@ -96,6 +96,10 @@ func c06Scenarios(c *vlib.Ctx) []c06Scenario {
 	// destroy of the second environment, and the clean-up of a creation that fails, must still get through
 	out = append(out, c06Scenario{Kind: "second-destroy", State: "CONFIGURED", Kill: "first-unanswered", Hooks: "none", NTasks: 2})
 	out = append(out, c06Scenario{Kind: "second-destroy", State: "RUNNING", Force: true, Kill: "first-unanswered", Hooks: "none", NTasks: 3})
+	// two environments with a task each on one agent (tasks of one environment on one agent share an executor,
+	// those of two environments do not): the executor of the first fails, then the second is destroyed
+	out = append(out, c06Scenario{Kind: "second-destroy", State: "CONFIGURED", Force: true, Kill: "first-executor-failed", Hooks: "none", NTasks: 2})
+	out = append(out, c06Scenario{Kind: "second-destroy", State: "RUNNING", Force: true, Kill: "first-executor-failed", Hooks: "none", NTasks: 3})
 	if c.Tier == "thorough" {
 		for _, st := range states {
 			for _, k := range []string{"ignore", "refused"} {
@@ -481,6 +485,11 @@ func c06Run(c *vlib.Ctx, idx int, sc c06Scenario) {
 
 	// ---- post-conditions ----
 	waitQuiet(s, 300*time.Millisecond, 10*time.Second)
+	if os.Getenv("VERIF_DEBUG") != "" {
+		for _, t := range s.Master.Tasks() {
+			fmt.Fprintf(os.Stderr, "DEBUG task %s agent=%s exec=%s mesos=%s terminal=%v kills=%d\n", t.RolePath, t.AgentID, t.ExecutorID, t.Mesos, t.Terminal, t.KillAsked)
+		}
+	}
 	if sc.Kill == "refused-first" {
 		// A refused call makes the client drop the subscription, and until it is re-established every
 		// further call fails in the client: the master may have seen no KILL at all. What the core
@@ -696,7 +705,7 @@ func c06SecondDestroy(c *vlib.Ctx, idx int, id int64, sc c06Scenario) {
 	var envA atomic.Value
 	envA.Store("")
 	s.Master.OnKill = func(t *simmesos.LaunchedTask) string {
-		if t.EnvID == envA.Load().(string) {
+		if sc.Kill == "first-unanswered" && t.EnvID == envA.Load().(string) {
 			return "ignore"
 		}
 		return "killed"
@@ -739,6 +748,56 @@ func c06SecondDestroy(c *vlib.Ctx, idx int, id int64, sc c06Scenario) {
 				out = append(out, t)
 			}
 		}
+		return
+	}
+	if sc.Kill == "first-executor-failed" {
+		// A's executor on host2 fails (FAILURE event naming executor AND agent, as Mesos sends it); B has a task
+		// of another executor on that agent
+		var failed *simmesos.LaunchedTask
+		for _, t := range tasksOf(a) {
+			t := t
+			if strings.HasSuffix(t.RolePath, ".t1") {
+				failed = &t
+			}
+		}
+		shares := false
+		for _, t := range tasksOf(b) {
+			if failed != nil && t.AgentID == failed.AgentID && t.ExecutorID != failed.ExecutorID {
+				shares = true
+			}
+		}
+		if failed == nil || !shares {
+			c.Inconclusive(fmt.Sprintf("scenario %d: the two environments have no tasks of different executors on one agent", idx))
+			return
+		}
+		s.Master.ExecutorFailure(failed.AgentID, failed.ExecutorID, false)
+		waitQuiet(s, 300*time.Millisecond, 5*time.Second)
+		c.Count("second_destroys_after_executor_failure_of_the_first", 1)
+		ctx, cancel := coresim.Ctx(60 * time.Second)
+		_, derr := s.Client.DestroyEnvironment(ctx, &pb.DestroyEnvironmentRequest{Id: b, Force: sc.Force})
+		cancel()
+		obs.Steps = append(obs.Steps, fmt.Sprintf("DestroyEnvironment(second) err=%q", truncate(grpcMsg(derr), 200)))
+		c.Count("destroys_driven", 1)
+		waitQuiet(s, 300*time.Millisecond, 5*time.Second)
+		if derr != nil {
+			if strings.Contains(grpcMsg(derr), "DeadlineExceeded") {
+				obs.Goroutines = s.DumpGoroutines()
+				fail("HANG", "destroy of the second environment did not return within 60 s")
+			} else {
+				fail("DESTROY-ERROR", "destroy of the second environment failed although release and kill were possible: "+grpcMsg(derr))
+			}
+			return
+		}
+		for _, t := range tasksOf(b) {
+			if !t.Terminal && t.KillAsked == 0 {
+				fail("NOT-KILLED", fmt.Sprintf("task %s (%s) of the destroyed environment was never asked to terminate: an executor of ANOTHER environment had failed on its agent", t.RolePath, t.ID))
+				return
+			}
+		}
+		c.Count("destroys_ok", 1)
+		ctx, cancel = coresim.Ctx(60 * time.Second)
+		s.Client.DestroyEnvironment(ctx, &pb.DestroyEnvironmentRequest{Id: a, Force: true})
+		cancel()
 		return
 	}
 	// destroy A: pending for as long as its executors ignore the KILLs
